@@ -42,6 +42,22 @@ def as_int_typed(x):
     return iconst(int(x.const_value())) if isinstance(x, Rat) and x.is_const() and Fraction(x.const_value()).denominator == 1 else x
 
 
+def may_be_integer(x):
+    """a NUMBER whose type is an integer type whenever the caller's data are integers: an integer-typed constant, or a
+    polynomial with integer coefficients in bare input atoms (`tx`, `cell[3]`; no function value, no radical, no pi, no
+    division).  numpy.array / asarray / *_like give such numbers an integer dtype."""
+    if isinstance(x, IRat):
+        return True
+    if not isinstance(x, Rat) or x.is_const():
+        return False
+    from .poly import ATOM_ARGS, RADICAND, p_is_const, p_const_value
+    if not (p_is_const(x.den) and p_const_value(x.den) == 1):
+        return False
+    if any(Fraction(c).denominator != 1 for c in x.num.values()):
+        return False
+    return all(a not in ATOM_ARGS and a not in RADICAND and a != "pi" and "(" not in a for a in x.atoms())
+
+
 class Arr:
     """fixed-shape array of values (nested python lists, mutable)"""
 
@@ -49,8 +65,53 @@ class Arr:
 
     inherits_dtype = False     # created by array()/asarray() of caller data without a dtype: integer input stays integer
 
+    root = None                # a VIEW (basic slice of another array): the array it shares its memory with ...
+    paths = None               # ... and, per entry of the view, the index path of that entry in `root`
+
     def __init__(self, data):
-        self.data = data
+        self._data = data
+
+    @property
+    def data(self):
+        if self.root is not None:
+            # always read through: a store into the root (or into another view of it) is seen by this view
+            def rd(p):
+                if isinstance(p, list):
+                    return [rd(q) for q in p]
+                d = self.root._data
+                for i in p:
+                    d = d[i]
+                return d
+            return rd(self.paths)
+        return self._data
+
+    @data.setter
+    def data(self, value):
+        self._data = value
+        self.root = self.paths = None
+
+    @classmethod
+    def view(cls, base, sel):
+        """the view of `base` (an Arr, possibly itself a view) whose entries are the entries of base at the index paths in `sel`
+        (paths relative to base)"""
+        if base.root is not None:
+            def through(p):
+                if isinstance(p, list):
+                    return [through(q) for q in p]
+                d = base.paths
+                for i in p:
+                    d = d[i]
+                return d
+            root, sel = base.root, through(sel)
+        else:
+            root = base
+        v = cls(None)
+        v.root, v.paths = root, sel
+        if root.int_dtype:
+            v.int_dtype = True
+        if root.inherits_dtype:
+            v.inherits_dtype = True
+        return v
 
     @property
     def shape(self):
@@ -115,8 +176,9 @@ class Arr:
         return "Arr" + self.key()
 
 
-class FancyIndex(list):
-    """an index that is a list of integers (numpy integer-array indexing)"""
+from . import npext                      # noqa: E402  (numpy's array-programming vocabulary on Arr values)
+
+FancyIndex = npext.IndexArray            # an index that is an array of integers of any rank (numpy integer-array indexing)
 
 
 class NTuple(tuple):
@@ -496,6 +558,30 @@ class _Continue(Exception):
     pass
 
 
+def dtype_kind(v):
+    """'float' | 'int' | 'bool' | 'complex' for a dtype argument, None if there is none, '?' if it is not recognised"""
+    if v is None:
+        return None
+    name = None
+    if isinstance(v, tuple) and len(v) == 2 and v[0] in ("builtin", "npfunc", "type", "typeobj") and isinstance(v[1], str):
+        name = v[1]
+    elif isinstance(v, str):
+        name = v
+    if name is None:
+        return "?"
+    name = name.lower().lstrip("<>=|")
+    if name in ("bool", "bool_", "bool8", "?", "b1"):
+        return "bool"
+    if name in ("float", "double", "float64", "float32", "float16", "float_", "longdouble", "float128", "single", "half", "d", "f", "f8", "f4", "floating"):
+        return "float"
+    if name in ("int", "int64", "int32", "int16", "int8", "intp", "int_", "long", "longlong", "uint8", "uint16", "uint32", "uint64",
+                "uint", "intc", "short", "i", "l", "i8", "i4", "i2", "i1", "u1", "u2", "u4", "u8", "integer"):
+        return "int"
+    if name in ("complex", "complex128", "complex64", "cdouble", "complex_", "c16", "c8"):
+        return "complex"
+    return "?"
+
+
 ELEMENTWISE = {"cos", "sin", "tan", "exp", "arccos", "arcsin", "arctan", "sqrt", "abs", "absolute",
                "degrees", "radians", "square", "log", "round", "rint", "around", "floor", "ceil", "fix", "fabs"}
 
@@ -839,6 +925,9 @@ class Evaluator:
                            "integer input makes it an integer array and the stored floats are truncated" % unparse(target))
                     self.hazards.append(rec)
                     HAZARDS.append(rec)
+                if base.root is not None:
+                    self.store_general(base, idx, val, target)
+                    return
                 if any(not isinstance(i, int) or isinstance(i, FancyIndex) for i in idx[:-1]) or idx[-1] is None \
                         or isinstance(idx[-1], FancyIndex) or (isinstance(idx[-1], slice) and any(isinstance(x_, list) for x_ in base.data)):
                     self.store_general(base, idx, val, target)
@@ -912,13 +1001,15 @@ class Evaluator:
                 r += 1
                 d = d[0] if d else None
             return r
-        fi = [i_ for i_ in idx if isinstance(i_, FancyIndex)]
-        if len(fi) >= 2:
-            if len(fi) != len(idx) or len({len(f_) for f_ in fi}) != 1:
-                raise AnalysisError("E3: mixed integer-array indexing in a store (line %d)" % target.lineno)
-            sel = [tuple(c_) for c_ in zip(*fi)]
+        # a view stores into the array it shares its memory with
+        root = base.root if base.root is not None else base
+        own = base.paths if base.root is not None else paths(base.data, ())
+        if any(isinstance(i_, FancyIndex) for i_ in idx):
+            def bad(msg):
+                raise AnalysisError("E3: %s in a store (line %d)" % (msg, target.lineno))
+            sel = npext.advanced_index(own, idx, bad)
         else:
-            sel = take(paths(base.data, ()), list(idx))
+            sel = take(own, list(idx))
         if isinstance(val, Arr):
             v = val.data
         elif isinstance(val, (Opaque, list, tuple)):
@@ -928,7 +1019,7 @@ class Evaluator:
             v = val
 
         def put(path, x):
-            d = base.data
+            d = root._data
             for i in path[:-1]:
                 d = d[i]
             if isinstance(d[path[-1]], list):
@@ -960,7 +1051,33 @@ class Evaluator:
 
     # ---------------------------------------------------------- expressions
     def index_of(self, sl, env):
-        """-> tuple of int | slice | None (newaxis) | FancyIndex"""
+        """-> tuple of int | slice | None (newaxis) | FancyIndex (integer index array of any rank; a boolean mask is replaced by
+        the index arrays of its true positions, as numpy does)"""
+        def index_array(v, where):
+            """value -> list of FancyIndex (one, or one per axis of a mask) | None if v is not an index array"""
+            if isinstance(v, Arr):
+                d = v.data
+            elif isinstance(v, (list, tuple)) and not is_tagged(v) and not isinstance(v, NTuple):
+                m_ = None
+                try:
+                    m_ = materialise(v)
+                except AnalysisError:
+                    return None
+                d = m_.data if m_ is not None else None
+            else:
+                return None
+            if not isinstance(d, list):
+                return None
+            flat = npext.nd_flat(d)
+            if not npext.nd_regular(d):
+                return None
+            if flat and all(isinstance(x_, bool) for x_ in flat):
+                def bad(msg):
+                    raise AnalysisError("E3: mask index: %s (line %d)" % (msg, where.lineno))
+                return npext.mask_to_indices(d, bad)
+            if all(not isinstance(x_, bool) and const_int(x_) is not None for x_ in flat):
+                return [FancyIndex(npext.nd_map(const_int, d))]
+            return None
         elts = sl.elts if isinstance(sl, ast.Tuple) else [sl]
         if not isinstance(sl, (ast.Tuple, ast.Slice)):
             v0 = self.eval(sl, env)
@@ -968,10 +1085,15 @@ class Evaluator:
                 # a tuple VALUE used as index is a multi-dimensional index (a list would be integer-array indexing)
                 out = []
                 for x_ in v0:
-                    if isinstance(x_, Arr) and len(x_.shape) == 1:
-                        x_ = list(x_.data)
-                    if isinstance(x_, (list, tuple)) and x_ and all(const_int(y_) is not None for y_ in x_):
-                        out.append(FancyIndex([const_int(y_) for y_ in x_]))       # one index array per axis
+                    if x_ is None or x_ == ("npfunc", "newaxis"):
+                        out.append(None)
+                        continue
+                    if isinstance(x_, slice):
+                        out.append(x_)
+                        continue
+                    ia_ = index_array(x_, sl)
+                    if ia_ is not None:
+                        out.extend(ia_)       # one index array per axis
                         continue
                     i_ = const_int(x_)
                     if i_ is None:
@@ -994,13 +1116,15 @@ class Evaluator:
                 if isinstance(v, slice):
                     out.append(v)
                     continue
-                if isinstance(v, Arr) and len(v.shape) == 1:
-                    v = list(v.data)
-                if isinstance(v, (list, tuple) if isinstance(sl, ast.Tuple) else list) and v and all(const_int(x_) is not None for x_ in v):
-                    out.append(FancyIndex([const_int(x_) for x_ in v]))
-                    continue
+                if isinstance(v, (Arr, list)) or (isinstance(v, tuple) and isinstance(sl, ast.Tuple)):
+                    ia_ = index_array(v, e)
+                    if ia_ is not None:
+                        out.extend(ia_)
+                        continue
                 i = const_int(v)
                 if i is None:
+                    if isinstance(v, bool):
+                        raise AnalysisError("E3: truth value used as an index `%s` (line %d)" % (unparse(e), e.lineno))
                     raise AnalysisError("E3: non-constant index `%s` (line %d)" % (unparse(e), e.lineno))
                 out.append(i)
         return tuple(out)
@@ -1019,20 +1143,11 @@ class Evaluator:
                 except IndexError:
                     raise AnalysisError("E3: index out of range (line %d)" % node.lineno)
             base = materialise(base)
-        if isinstance(base, Arr) and sum(1 for i_ in idx if isinstance(i_, FancyIndex)) >= 2:
-            fi = [i_ for i_ in idx if isinstance(i_, FancyIndex)]
-            if len(fi) != len(idx) or len({len(f_) for f_ in fi}) != 1:
-                raise AnalysisError("E3: mixed integer-array indexing (line %d)" % node.lineno)
-            try:
-                out_ = []
-                for combo in zip(*fi):
-                    d_ = base.data
-                    for k_ in combo:
-                        d_ = d_[k_]
-                    out_.append(d_)
-                return Arr(out_)
-            except (IndexError, TypeError):
-                raise AnalysisError("E3: index out of range (line %d)" % node.lineno)
+        if isinstance(base, Arr) and any(isinstance(i_, FancyIndex) for i_ in idx):
+            def bad(msg):
+                raise AnalysisError("E3: %s (line %d)" % (msg, node.lineno))
+            r_ = npext.advanced_index(base.data, idx, bad)
+            return Arr(r_) if isinstance(r_, list) else r_
         if isinstance(base, Arr):
             def take(d, idx):
                 if not idx:
@@ -1054,6 +1169,11 @@ class Evaluator:
                         raise AnalysisError("E3: index out of range (line %d)" % node.lineno)
                 return [take(x, idx[1:]) for x in d[i]]
             r = take(base.data, list(idx))
+            if isinstance(r, list) and not any(isinstance(i_, FancyIndex) for i_ in idx):
+                # basic indexing: the result shares its memory with `base` (numpy view); stores into it reach `base`
+                def paths_(d_, pre_):
+                    return [paths_(x_, pre_ + (k_,)) for k_, x_ in enumerate(d_)] if isinstance(d_, list) else pre_
+                return Arr.view(base, take(paths_(base.data, ()), list(idx)))
             return Arr(r) if isinstance(r, list) else r
         if isinstance(base, Opaque):
             if all(isinstance(i, int) and not isinstance(i, bool) for i in idx):
@@ -1218,6 +1338,11 @@ class Evaluator:
         if isinstance(node.op, ast.Not):
             if isinstance(v, bool):
                 return not v
+        if isinstance(node.op, ast.Invert):
+            if isinstance(v, bool):
+                raise AnalysisError("E3: `~` of a python truth value is an integer, not its negation (line %d)" % node.lineno)
+            if isinstance(v, Arr) and v.flat() and all(isinstance(x_, bool) for x_ in v.flat()):
+                return Arr(npext.nd_map(lambda x_: not x_, v.data))
         raise AnalysisError("E3: unsupported unary operator (line %d)" % node.lineno)
 
     def e_BinOp(self, node, env):
@@ -1246,6 +1371,29 @@ class Evaluator:
             return a + b                    # python sequences concatenate (numpy arrays are Arr / Opaque)
         if isinstance(op, ast.MatMult):
             return self.np_matmul(a, b, node)
+        if isinstance(op, (ast.BitAnd, ast.BitOr, ast.BitXor)):
+            def mask_(v_):
+                if isinstance(v_, bool):
+                    return v_
+                if isinstance(v_, Arr) and all(isinstance(x_, bool) for x_ in v_.flat()):
+                    return v_.data
+                if isinstance(v_, list) and v_ and all(isinstance(x_, bool) for x_ in npext.nd_flat(v_)):
+                    return v_
+                return None
+            ma_, mb_ = mask_(a), mask_(b)
+            if ma_ is None or mb_ is None:
+                raise AnalysisError("E3: `%s` on values that are not truth values / masks (line %d)"
+                                    % ({ast.BitAnd: "&", ast.BitOr: "|", ast.BitXor: "^"}[type(op)], getattr(node, "lineno", 0)))
+            f_ = {ast.BitAnd: lambda x_, y_: x_ and y_, ast.BitOr: lambda x_, y_: x_ or y_, ast.BitXor: lambda x_, y_: x_ != y_}[type(op)]
+            sa_, sb_ = npext.nd_shape(ma_), npext.nd_shape(mb_)
+
+            def bad_(msg):
+                raise AnalysisError("E3: %s (line %d)" % (msg, getattr(node, "lineno", 0)))
+            S_ = npext.broadcast_shapes([sa_, sb_], bad_)
+            if not S_:
+                return f_(ma_, mb_)
+            return Arr(npext.nd_build(S_, lambda ix: f_(npext.broadcast_get(ma_, sa_, ix) if sa_ else ma_,
+                                                        npext.broadcast_get(mb_, sb_, ix) if sb_ else mb_)))
         # Python booleans are the integers 0 and 1 in arithmetic
         if isinstance(a, bool):
             a = Rat.const(int(a))
@@ -1324,7 +1472,23 @@ class Evaluator:
                 for _ in range(len(sa) - len(sb)):
                     db = [db]
         r = rec(da, db)
-        return Arr(r) if isinstance(r, list) else r
+        if isinstance(r, list):
+            out_ = Arr(r)
+            if isinstance(op, (ast.Add, ast.Sub, ast.Mult, ast.Pow)):
+                def intlike_(v_):
+                    if isinstance(v_, Arr):
+                        return v_.inherits_dtype or v_.int_dtype
+                    if isinstance(v_, list):
+                        return False
+                    try:
+                        return may_be_integer(scalar(v_))
+                    except AnalysisError:
+                        return False
+                if intlike_(a) and intlike_(b) and ((isinstance(a, Arr) and a.inherits_dtype) or (isinstance(b, Arr) and b.inherits_dtype)) \
+                        and not (isinstance(op, ast.Pow) and not (isinstance(b, IRat) and b.const_value() >= 0)):
+                    out_.inherits_dtype = True
+            return out_
+        return r
 
     def e_Compare(self, node, env):
         left = self.eval(node.left, env)
@@ -1337,15 +1501,41 @@ class Evaluator:
         return result
 
     def compare(self, op, a, b, node):
-        # a constant array against a constant: element-wise truth values (for numpy.all / numpy.any)
-        for x_, y_, swap in ((a, b, False), (b, a, True)):
-            if isinstance(x_, Arr) and isinstance(y_, (Rat, int, float)) and not isinstance(y_, bool) and x_.shape != () \
-                    and all(isinstance(e_, Rat) for e_ in x_.flat()):
-                def recb(d):
-                    if isinstance(d, list):
-                        return [recb(e_) for e_ in d]
-                    return self.compare(op, y_, d, node) if swap else self.compare(op, d, y_, node)
-                return recb(x_.data)
+        # an array against a number or another array: element-wise truth values (a mask), numpy broadcasting
+        if (isinstance(a, Arr) or isinstance(b, Arr)) and not isinstance(op, (ast.Is, ast.IsNot, ast.In, ast.NotIn)) \
+                and a is not None and b is not None:
+            def plain_(v_):
+                if isinstance(v_, Arr):
+                    return v_.data
+                if isinstance(v_, (list, tuple)) and not is_tagged(v_):
+                    m_ = materialise(v_)
+                    return m_.data if m_ is not None else None
+                if isinstance(v_, Opaque):
+                    m_ = materialise(v_)
+                    return m_.data if m_ is not None else (scalar(v_) if v_.shape is not None else None)
+                if isinstance(v_, (Rat, int, float, Fraction)) and not isinstance(v_, bool):
+                    return scalar(v_)
+                if isinstance(v_, bool):
+                    return v_
+                return None
+            da_, db_ = plain_(a), plain_(b)
+            if da_ is not None and db_ is not None:
+                sa_, sb_ = npext.nd_shape(da_), npext.nd_shape(db_)
+
+                def bad_(msg):
+                    raise AnalysisError("E3: comparison: %s (line %d)" % (msg, node.lineno))
+                S_ = npext.broadcast_shapes([sa_, sb_], bad_)
+
+                def one_(ix):
+                    x_ = npext.broadcast_get(da_, sa_, ix) if sa_ else da_
+                    y_ = npext.broadcast_get(db_, sb_, ix) if sb_ else db_
+                    if isinstance(x_, bool) or isinstance(y_, bool):
+                        if isinstance(x_, bool) and isinstance(y_, bool) and isinstance(op, (ast.Eq, ast.NotEq)):
+                            return (x_ == y_) == isinstance(op, ast.Eq)
+                        bad_("truth value compared with a number")
+                    return self.compare(op, x_, y_, node)
+                if S_:
+                    return Arr(npext.nd_build(S_, one_))
 
         def norm(v):
             if isinstance(v, Rat):
@@ -1378,6 +1568,14 @@ class Evaluator:
                 sg = pi_sign(d)
                 if sg is not None:
                     a, b, d = Rat.const(sg), Rat.const(0), Rat.const(sg)
+            if not d.is_const():
+                # a principal-value angle against a multiple of pi: its range decides the comparisons that do not depend on the
+                # end point (arccos(x) < 0 is false, arccos(x) >= 0 is true; arccos(x) > 0 depends on x)
+                ws_ = angle_range_sign(d)
+                if ws_ == 1 and isinstance(op, (ast.Lt, ast.GtE)):
+                    return isinstance(op, ast.GtE)
+                if ws_ == -1 and isinstance(op, (ast.Gt, ast.LtE)):
+                    return isinstance(op, ast.LtE)
             if not d.is_const() and self.threshold_policy is not None:
                 # `quantity < small positive literal` (either orientation): a tolerance band
                 sa, sb = scalar(a), scalar(b)
@@ -1622,6 +1820,15 @@ class Evaluator:
             A = materialise(base)
             if A is not None:
                 return tuple(Rat.const(i) for i in A.shape)
+        if node.attr == "dtype" and isinstance(base, Arr):
+            fl_ = base.flat()
+            if fl_ and all(isinstance(x_, bool) for x_ in fl_):
+                return ("typeobj", "bool")
+            if base.int_dtype:
+                return ("typeobj", "int64")
+            if base.inherits_dtype:
+                return ("typeobj", "dtype of the caller's data")       # not a kind dtype_kind() knows: an error where it matters
+            return ("typeobj", "float64")
         if node.attr in ("ndim", "size") and isinstance(base, (Arr, Opaque)):
             A = base if isinstance(base, Arr) else materialise(base)
             if A is not None:
@@ -1763,6 +1970,12 @@ class Evaluator:
             return self.binop(self.OPERATORS[name](), args[0], args[1], node)
         if name in self.COMPARATORS and len(args) == 2:
             return self.compare(self.COMPARATORS[name](), args[0], args[1], node)
+        if name in ("re.match", "re.search", "re.fullmatch", "re.findall", "re.split") and len(args) == 2 and not kwargs \
+                and isinstance(args[0], (str, tuple)) and isinstance(args[1], str):
+            # module-level regular-expression functions on constant text: the compiled pattern's method
+            pat_ = args[0] if isinstance(args[0], str) else (args[0][1] if len(args[0]) == 2 and args[0][0] == "regex" else None)
+            if pat_ is not None:
+                return self.method_call(("regex", pat_), name[3:], [args[1]], {}, node)
         if name == "operator.neg" and len(args) == 1:
             return self.binop(ast.Mult(), Rat.const(-1), args[0], node)
         if name == "operator.itemgetter" and args:
@@ -2115,6 +2328,11 @@ class Evaluator:
                 return [left_(e_) for e_ in d_] if isinstance(d_, list) else right_(scalar(d_), B_)
             r_ = left_(A_)
             return Arr(r_) if isinstance(r_, list) else r_
+        if isinstance(base, tuple) and len(base) == 2 and base[0] == "npfunc":
+            r_ = npext.ufunc_method(self, base[1], attr, args, kwargs, node)
+            if r_ is not NotImplemented:
+                return r_
+            raise AnalysisError("E3: numpy.%s.%s is not modelled (line %d)" % (base[1], attr, getattr(node, "lineno", 0)))
         if isinstance(base, tuple) and len(base) == 2 and base[0] == "rematch" and not kwargs:
             ints = [const_int(a_) if not isinstance(a_, str) else a_ for a_ in args]
             if any(i_ is None for i_ in ints):
@@ -2221,6 +2439,10 @@ class Evaluator:
                 if not isinstance(d, list):
                     return Rat.const(int(d)) if isinstance(d, bool) else scalar(d)
                 parts = [red(x, depth + 1) for x in d]
+                if depth in axes and not parts:
+                    # an empty axis: the sum is a zero array whose trailing shape the nested lists do not record; the number 0
+                    # broadcasts to it in every arithmetic use, and any use that needs the shape fails as "not an array"
+                    return Rat.const(0)
                 if depth in axes:
                     def add(u, v):
                         return [add(a, b) for a, b in zip(u, v)] if isinstance(u, list) else u + v
@@ -2250,7 +2472,34 @@ class Evaluator:
             raise AnalysisError("E3: method `%s` of a %s is not modelled (line %d)" % (attr, type(base).__name__, getattr(node, "lineno", 0)))
         if attr in ("sort", "fill", "resize", "put", "itemset", "partition", "byteswap", "setfield") and isinstance(base, (Arr, Opaque)):
             raise AnalysisError("E3: in-place array method `%s` is not modelled (line %d)" % (attr, getattr(node, "lineno", 0)))
+        if isinstance(base, (Arr, Rat)) or is_tagged(base):
+            # an explicit array or number: an opaque value here would read as "another value" in every comparison
+            r_ = self.array_method(base, attr, args, kwargs, node)
+            if r_ is not NotImplemented:
+                return r_
+            raise AnalysisError("E3: method `%s` of %s is not modelled (line %d)"
+                                % (attr, "an array" if isinstance(base, Arr) else "a number" if isinstance(base, Rat) else "a %s value" % base[0],
+                                   getattr(node, "lineno", 0)))
         return Opaque("%s.%s(%s)" % (vkey(base), attr, ",".join(vkey(a) for a in args)))
+
+    def array_method(self, base, attr, args, kwargs, node):
+        """ndarray methods that are numpy functions of the array"""
+        if is_tagged(base):
+            return NotImplemented
+        if attr in ("mean", "prod", "cumsum", "cumprod", "squeeze", "ravel", "flatten", "diagonal", "repeat", "take", "nonzero",
+                    "round", "conj", "conjugate", "item", "tolist", "argsort", "argmax", "argmin", "std", "var", "ptp", "compress"):
+            if attr in ("conj", "conjugate") and not args and not kwargs:
+                return base
+            if attr == "item" and not args and not kwargs and isinstance(base, Rat):
+                return base
+            if attr == "tolist" and isinstance(base, Rat) and not args:
+                return base
+            if attr in ("argsort", "argmax", "argmin", "std", "var"):
+                return self.np_call(attr, [base] + list(args), kwargs, node)
+            return self.np_call(attr, [base] + list(args), kwargs, node)
+        if attr in ("__len__",) and isinstance(base, Arr) and not args:
+            return Rat.const(len(base.data))
+        return NotImplemented
 
     def np_transpose(self, a, node):
         A = a if isinstance(a, Arr) else materialise(a)
@@ -2529,7 +2778,24 @@ class Evaluator:
                     return Rat.const(max(cs) if canon == "max" else min(cs))
                 return func_atom(canon, *vals)
         if name == "arctan2" and len(args) == 2:
-            return func_atom("arctan2", scalar(args[0]), scalar(args[1]))
+            def plain2_(v_):
+                if isinstance(v_, Arr):
+                    return v_.data
+                if isinstance(v_, (list, tuple, Opaque)):
+                    m_ = materialise(v_)
+                    if m_ is not None:
+                        return m_.data
+                return scalar(v_)
+            y_, x_ = plain2_(args[0]), plain2_(args[1])
+            if isinstance(y_, list) or isinstance(x_, list):
+                sy_, sx_ = npext.nd_shape(y_), npext.nd_shape(x_)
+
+                def bad_(msg):
+                    raise AnalysisError("E3: arctan2: %s (line %d)" % (msg, node.lineno))
+                S_ = npext.broadcast_shapes([sy_, sx_], bad_)
+                return Arr(npext.nd_build(S_, lambda ix: func_atom("arctan2", scalar(npext.broadcast_get(y_, sy_, ix) if sy_ else y_),
+                                                                   scalar(npext.broadcast_get(x_, sx_, ix) if sx_ else x_))))
+            return func_atom("arctan2", y_, x_)
         if name in ("array", "asarray", "ascontiguousarray", "asfarray", "asanyarray", "float64", "float_") and 1 <= len(args) <= 2 \
                 and isinstance(args[0], Rat):
             return args[0]            # a 0-d array of one number: the number
@@ -2556,9 +2822,14 @@ class Evaluator:
                 def from_caller(d):
                     if isinstance(d, (list, tuple)):
                         return all(from_caller(x) for x in d)
-                    return isinstance(d, Opaque) or (isinstance(d, Rat) and single_atom(d) is not None and "[" in single_atom(d) and "(" not in single_atom(d))
-                m.inherits_dtype = from_caller(v)
+                    if isinstance(d, Opaque):
+                        return True
+                    # a bare input (`tx`, `cell[3]`): an integer when the caller passes one; integer literals next to them do not
+                    # change that (numpy.array([tx, 0, 1]) of an int tx is an integer array)
+                    return isinstance(d, IRat) or (isinstance(d, Rat) and single_atom(d) is not None and may_be_integer(d))
                 leaves = m.flat()
+                m.inherits_dtype = from_caller(v) and any(not isinstance(x_, IRat) for x_ in leaves)
+
                 m.int_dtype = bool(leaves) and all(isinstance(x_, IRat) for x_ in leaves)
             return m
         if name == "zeros":
@@ -2567,9 +2838,16 @@ class Evaluator:
             if any(d is None for d in dims):
                 raise AnalysisError("E3: zeros of non-constant shape (line %d)" % node.lineno)
 
+            dk_ = dtype_kind(args[1] if len(args) > 1 else kwargs.get("dtype"))
+            if dk_ in ("?", "complex"):
+                raise AnalysisError("E3: zeros with a dtype that is not modelled (line %d)" % node.lineno)
+            zero_ = False if dk_ == "bool" else iconst(0) if dk_ == "int" else Rat.const(0)
+
             def build(ds):
-                return [build(ds[1:]) for _ in range(ds[0])] if ds else Rat.const(0)
+                return [build(ds[1:]) for _ in range(ds[0])] if ds else zero_
             r_ = Arr(build(dims))
+            if dk_ == "int" and 0 not in dims:
+                r_.int_dtype = True
             if 0 in dims:
                 r_.zshape = tuple(dims)       # the declared shape of an empty array (nested lists cannot carry it)
             return r_
@@ -2599,14 +2877,55 @@ class Evaluator:
         if name == "cross" and len(args) == 2:
             A = args[0] if isinstance(args[0], Arr) else materialise(args[0])
             B = args[1] if isinstance(args[1], Arr) else materialise(args[1])
-            if A is None or B is None or A.shape != (3,) or B.shape != (3,):
+            if A is not None and B is not None and not kwargs and A.shape and B.shape and A.shape[-1] == 3 and B.shape[-1] == 3 \
+                    and (len(A.shape) > 1 or len(B.shape) > 1):
+                # stacks of 3-vectors: the cross product of corresponding vectors (leading axes broadcast)
+                def bad_(msg):
+                    raise AnalysisError("E3: cross: %s (line %d)" % (msg, node.lineno))
+                S_ = npext.broadcast_shapes([A.shape[:-1], B.shape[:-1]], bad_)
+
+                def one_(ix):
+                    a = [scalar(npext.broadcast_get(A.data, A.shape, ix + (k_,))) for k_ in range(3)]
+                    b = [scalar(npext.broadcast_get(B.data, B.shape, ix + (k_,))) for k_ in range(3)]
+                    return [a[1] * b[2] - a[2] * b[1], a[2] * b[0] - a[0] * b[2], a[0] * b[1] - a[1] * b[0]]
+                return Arr(npext.nd_build(S_, one_))
+            if A is None or B is None or A.shape != (3,) or B.shape != (3,) or kwargs:
+                if A is not None and B is not None:
+                    raise AnalysisError("E3: cross of explicit arrays of shapes %s and %s is not modelled (line %d)" % (A.shape, B.shape, node.lineno))
                 return Opaque("cross(%s,%s)" % (vkey(args[0]), vkey(args[1])))
             a, b = [scalar(x) for x in A.data], [scalar(x) for x in B.data]
             return Arr([a[1] * b[2] - a[2] * b[1], a[2] * b[0] - a[0] * b[2], a[0] * b[1] - a[1] * b[0]])
         if name == "linalg.norm" and len(args) == 1 and set(kwargs) <= {"axis"}:
             v = args[0]
             A = v if isinstance(v, Arr) else materialise(v)
+            if A is not None and A.shape and kwargs.get("axis") is not None:
+                # vector norms along one axis of an explicit array
+                ax_ = const_int(kwargs["axis"])
+                if ax_ is None or not (-len(A.shape) <= ax_ < len(A.shape)):
+                    raise AnalysisError("E3: norm along an axis that is not a constant inside the rank (line %d)" % node.lineno)
+                lead_ = npext.move_axis_front(A.data, ax_ % len(A.shape))
+
+                def sq_(u_):
+                    return [sq_(x_) for x_ in u_] if isinstance(u_, list) else scalar(u_) * scalar(u_)
+
+                def add_(u_, w_):
+                    return [add_(p_, q_) for p_, q_ in zip(u_, w_)] if isinstance(u_, list) else u_ + w_
+                if not lead_:
+                    raise AnalysisError("E3: norm along an empty axis (line %d)" % node.lineno)
+                acc_ = sq_(lead_[0])
+                for x_ in lead_[1:]:
+                    acc_ = add_(acc_, sq_(x_))
+                r_ = npext.nd_map(sqrt_of, acc_)
+                return Arr(r_) if isinstance(r_, list) else r_
+            if A is not None and len(A.shape) == 2 and not kwargs:
+                # the default norm of a matrix is the Frobenius norm
+                tot = Rat.const(0)
+                for x in A.flat():
+                    tot = tot + scalar(x) * scalar(x)
+                return sqrt_of(tot)
             if A is None or len(A.shape) != 1:
+                if A is not None:
+                    raise AnalysisError("E3: norm of an explicit array of rank %d is not modelled (line %d)" % (len(A.shape), node.lineno))
                 return Opaque("norm(%s)" % vkey(v))
             tot = Rat.const(0)
             for x in A.data:
@@ -2664,7 +2983,8 @@ class Evaluator:
             k = const_int(args[1]) if len(args) == 2 else 0
             if A is not None and len(A.shape) == 2 and k is not None:
                 keep = (lambda i, j: j - i <= k) if name == "tril" else (lambda i, j: j - i >= k)
-                return Arr([[A.data[i][j] if keep(i, j) else Rat.const(0) for j in range(A.shape[1])] for i in range(A.shape[0])])
+                isb_ = bool(A.flat()) and all(isinstance(x_, bool) for x_ in A.flat())
+                return Arr([[A.data[i][j] if keep(i, j) else (False if isb_ else Rat.const(0)) for j in range(A.shape[1])] for i in range(A.shape[0])])
         if name == "where" and len(args) == 3 and not kwargs:
             # element-wise selection on decided truth values (the comparison that produced them went through the policies)
             def plain(v):
@@ -2720,7 +3040,8 @@ class Evaluator:
                 axes_ = list(range(len(A_.shape)))
                 axes_[i_], axes_[j_] = axes_[j_], axes_[i_]
                 return self.np_transpose_axes(A_, axes_, node)
-        if name == "einsum" and len(args) >= 2 and isinstance(args[0], str) and not kwargs:
+        if name == "einsum" and len(args) >= 2 and isinstance(args[0], str) and set(kwargs) <= {"order", "optimize"}:
+            # (memory layout and contraction order do not change the value)
             return self.np_einsum(args[0], args[1:], node)
         if name == "matmul" and len(args) == 2 and not kwargs:
             return self.np_matmul(args[0], args[1], node)
@@ -2735,11 +3056,33 @@ class Evaluator:
             dims = [const_int(x) for x in (shp if isinstance(shp, (list, tuple)) else [shp])]
             if any(d is None for d in dims):
                 raise AnalysisError("E3: %s of non-constant shape (line %d)" % (name, node.lineno))
-            fill = Rat.const(1) if name == "ones" else scalar(args[1] if len(args) > 1 else kwargs.get("fill_value"))
+            dk_ = dtype_kind((args[1] if len(args) > 1 else kwargs.get("dtype")) if name == "ones"
+                             else (args[2] if len(args) > 2 else kwargs.get("dtype")))
+            if dk_ in ("?", "complex"):
+                raise AnalysisError("E3: %s with a dtype that is not modelled (line %d)" % (name, node.lineno))
+            fv_ = None if name == "ones" else (args[1] if len(args) > 1 else kwargs.get("fill_value"))
+            if dk_ == "bool":
+                if name == "ones":
+                    fill = True
+                elif isinstance(fv_, bool):
+                    fill = fv_
+                else:
+                    raise AnalysisError("E3: full(..., dtype=bool) with a fill value that is not a truth value (line %d)" % node.lineno)
+            elif isinstance(fv_, bool) and dk_ is None:
+                fill = fv_
+            else:
+                fill = Rat.const(1) if name == "ones" else scalar(fv_)
+                if dk_ == "int":
+                    if not (fill.is_const() and fill.const_value().denominator == 1):
+                        raise AnalysisError("E3: %s with an integer dtype and a fill value that is not an integer constant (line %d)" % (name, node.lineno))
+                    fill = iconst(int(fill.const_value()))
 
             def buildf(ds):
                 return [buildf(ds[1:]) for _ in range(ds[0])] if ds else fill
-            return Arr(buildf(dims))
+            r_ = Arr(buildf(dims))
+            if dk_ == "int" and dims and 0 not in dims:
+                r_.int_dtype = True
+            return r_
         if name == "trace" and len(args) == 1:
             A = args[0] if isinstance(args[0], Arr) else materialise(args[0])
             if A is not None and len(A.shape) == 2:
@@ -2771,6 +3114,11 @@ class Evaluator:
                     rank = ranks.pop()
                     if name == "stack" and axis == 0:
                         return Arr([p.copy().data for p in parts])
+                    if name == "stack" and -(rank + 1) <= axis <= rank and len({p.shape for p in parts}) == 1:
+                        # the new axis at position `axis`: stack along 0, then move the leading axis there
+                        return Arr(npext.move_front_to([p.copy().data for p in parts], axis % (rank + 1)))
+                    if name == "concatenate" and -rank <= axis < 0:
+                        axis += rank
                     if name == "hstack":
                         axis = 0 if rank == 1 else 1
                     elif name == "vstack":
@@ -3013,9 +3361,18 @@ class Evaluator:
             fb = flatb(args[0])
             if fb is not None:
                 return all(fb) if name == "all" else any(fb)
-        if name in ("concatenate", "linalg.qr", "unique", "argsort", "sort", "arange", "clip", "max", "min",
-                    "fliplr", "flipud", "mod", "allclose", "random.rand", "linalg.eig", "empty", "hstack", "vstack", "stack", "outer",
-                    "trace", "argmin", "argmax", "where", "isclose", "any", "all"):
+        OPAQUE_OK = ("concatenate", "linalg.qr", "unique", "argsort", "sort", "arange", "clip", "max", "min",
+                     "fliplr", "flipud", "mod", "allclose", "random.rand", "linalg.eig", "empty", "hstack", "vstack", "stack", "outer",
+                     "trace", "argmin", "argmax", "where", "isclose", "any", "all")
+        try:
+            r_ = npext.call(self, name, args, kwargs, node)
+        except AnalysisError:
+            if name not in OPAQUE_OK:
+                raise
+            r_ = NotImplemented
+        if r_ is not NotImplemented:
+            return r_
+        if name in OPAQUE_OK:
             return self.opaque_call(name, args, kwargs, node)
         raise AnalysisError("E3: numpy function %s unsupported (line %d)" % (name, node.lineno))
 
